@@ -149,7 +149,9 @@ def a_specs(ctx: Ctx, scen: list[dict]) -> list[dict]:
     for i, s in enumerate(scen):
         inst = INSTANCES[(s["D"], s["dt"])]
         pool = model_pool(s["D"], inst["g"])
-        reals = inst["real"] if not ctx.quick else [inst["real"][i % len(inst["real"])]]
+        reals = [inst["real"][i % len(inst["real"])]]      # literal / analogous instantiations in turn
+        if not ctx.quick and i % 16 == 0:
+            reals = inst["real"]                           # every 16th schedule on all of them
         for (Dn, dtn, pool_ns) in reals:
             m = {q: p / Dn for q, p in zip(pool, pool_ns)}
             obs = [sorted(m[q] for q in o["own"]) if o["has"] else None for o in s["obs"]]
@@ -184,7 +186,7 @@ def r_specs(ctx: Ctx) -> list[dict]:
         {"D": 40, "dt": 10.0, "obs": [[float(x) for x in np.linspace(0, 1, 5)], [float(x) for x in np.arange(0, 1.01, 0.25)]], "default": None},
     ]
     specs = [dict(s, stratum="R", mod=s.get("mod", False)) for s in fixed]
-    for _ in range(ctx.pick(150, 1200)):
+    for _ in range(ctx.pick(100, 600)):
         D = rng.choice([13, 50, 100, 257, 1000])
         dt = rng.choice([0.5, 1.0, 3.0, 7.0, 10.0, 12.5, 2.0 * D])
         if D / dt > 120:
@@ -320,7 +322,7 @@ def run(ctx: Ctx) -> None:
     ctx.coverage["model_code_variant"] = {"violated": r_c["violated"], "counterexample": code_cex}
     n_code_bad = sum(1 for k, v in logs["code"].items() if any(sorted(set(v["rec"][j])) != (v["obs"][j]["own"] if v["obs"][j]["has"] else v["dflt"]) for j in range(2)))
     ctx.coverage["model_code_variant"]["scenarios_violating"] = n_code_bad
-    for variant in ("fixed", "code"):
+    for variant in ctx.pick(("code",), ("fixed", "code")):
         r = run_tlc("MCObsSchedule", None, workdir=ctx.work, name=f"neardup_{variant}", workers=WORKERS, cfg_text=cfg_text(ctx.pick("cB1", "cQuick"), variant, True, False, ["OnceEach", "NoRaise", "Increasing"]))
         ctx.add_tlc(r)
         ctx.coverage.setdefault("model_with_duplicated_target_points", {})[variant] = [v[1] for v in r["violated"]]
@@ -333,9 +335,9 @@ def run(ctx: Ctx) -> None:
     rng = ctx.rng
     idx = list(range(len(specs)))
     rng.shuffle(idx)
-    n_sv = ctx.pick(2400, len(specs))
-    n_mps = ctx.pick(70, 900)
-    n_dmrg = ctx.pick(30, 300)
+    n_sv = ctx.pick(1600, len(specs))
+    n_mps = ctx.pick(50, 600)
+    n_dmrg = ctx.pick(20, 200)
     # scenarios where the two model variants differ are the interesting ones: take them first for mps / dmrg
     differ = [i for i in idx if logs["fixed"][keys[specs[i]["scn"]]]["rec"] != logs["code"][keys[specs[i]["scn"]]]["rec"]]
     same = [i for i in idx if i not in set(differ)]
